@@ -273,6 +273,9 @@ AMBIENT = [
     (re.compile(r'^core::fmt::Pointer::fmt$'), 'address formatting'),
     (re.compile(r'^getrandom::'), 'getrandom'),
     (re.compile(r'^uuid::'), 'uuid'),
+    (re.compile(r'^futures_util::async_await::random::'), 'futures select!/join-style macros start from a pseudo-random branch; use select_biased!'),
+    (re.compile(r'^(fastrand|oorandom|nanorand|tinyrand)::'), 'pseudo-random generator'),
+    (re.compile(r'^std::collections::hash::map::RandomState|^std::hash::random::DefaultHasher::new|^ahash::random_state'), 'randomly seeded hasher'),
 ]
 
 
@@ -323,8 +326,15 @@ def check(ctx, rep):
         wrappers = find_wrappers(crates)
         for c in crates:
             n_ambient = 0
+            exp_roots = set(g.path for g in c.built if g.j.get('exp') and g.kind != 'Closure')
             for f in c.built:
                 if f.j.get('exp'):
+                    # a body produced by a macro: derive output (its whole item is generated) is skipped; a closure a macro such as
+                    # select! puts inside a hand-written function is still scanned for ambient nondeterminism
+                    if f.kind == 'Closure' and f.root not in exp_roots:
+                        for bb, what in ambient_hits(f):
+                            n_ambient += 1
+                            rep.bad('R11.b', '%s|%s' % (f.kpath, what), 'ambient nondeterminism at %s: %s' % (f.where(bb), what))
                     continue
                 # R11.a
                 k = 0
